@@ -5,7 +5,10 @@ import (
 	"encoding/json"
 	"errors"
 	"fmt"
+	"math"
 	"reflect"
+	goruntime "runtime"
+	"strings"
 	"sync/atomic"
 	"time"
 	"unsafe"
@@ -309,6 +312,237 @@ func mapWorkload(e *env) {
 					}
 				})
 			}
+		}
+	})
+	e.waitActive()
+}
+
+// ------------------------------------------------------------------ types.Map with colliding keys
+
+// collidingKeys returns distinct keys of different kinds whose 64-bit hashes are equal: the
+// scalar hashes are FNV over the raw bytes and ignore the kind. All of them land in ONE bucket.
+func collidingKeys(x uint64) []types.Value {
+	b := []byte{byte(x), byte(x >> 8), byte(x >> 16), byte(x >> 24), byte(x >> 32), byte(x >> 40), byte(x >> 48), byte(x >> 56)}
+	return []types.Value{types.NewInt64(int64(x)), types.NewUint64(x), types.NewInt(int(x)), types.NewUint(uint(x)),
+		types.NewFloat64(math.Float64frombits(x)), types.NewString(string(b)), types.NewBinary(b)}
+}
+
+// collideRound is one shared immutable map whose bucket of colliding keys was grown pair by
+// pair (so the bucket's backing array may have spare capacity), and what it must keep holding.
+type collideRound struct {
+	shared types.Map
+	twin   types.Map     // an equal map built separately
+	keys   []types.Value // the keys of shared, colliding ones first
+	vals   []types.Value
+	spare  []types.Value // colliding keys NOT in shared
+	closed atomic.Bool
+	active atomic.Int64
+}
+
+// keyStr prints a key with its kind, strings quoted (the colliding strings are not printable).
+func keyStr(k types.Value) string {
+	if s, ok := k.Interface().(string); ok {
+		return fmt.Sprintf("%T(%q)", k, s)
+	}
+	return fmt.Sprintf("%T(%v)", k, k.Interface())
+}
+
+func describeKeys(ks []types.Value) string {
+	var ps []string
+	for _, k := range ks {
+		ps = append(ps, keyStr(k))
+	}
+	return strings.Join(ps, ",")
+}
+
+// checkShared verifies that the shared map still holds exactly its pairs ("" when it does).
+func (r *collideRound) checkShared() string {
+	var bad []string
+	if n := r.shared.Len(); n != len(r.keys) {
+		bad = append(bad, fmt.Sprintf("Len=%d want %d", n, len(r.keys)))
+	}
+	for i, k := range r.keys {
+		v := r.shared.Get(k)
+		if v == nil || !types.Equal(v, r.vals[i]) {
+			got := "absent"
+			if v != nil {
+				got = fmt.Sprint(v.Interface())
+			}
+			bad = append(bad, fmt.Sprintf("Get(%s)=%s want %v", keyStr(k), got, r.vals[i].Interface()))
+		}
+		if !r.shared.Has(k) {
+			bad = append(bad, fmt.Sprintf("Has(%s)=false", keyStr(k)))
+		}
+	}
+	for _, k := range r.spare {
+		if r.shared.Has(k) {
+			bad = append(bad, fmt.Sprintf("Has(%s)=true for a key that was only set on derived maps", keyStr(k)))
+		}
+	}
+	seen := 0
+	for k, v := range r.shared.Range() {
+		seen++
+		found := false
+		for i, kk := range r.keys {
+			if types.Equal(k, kk) && types.Compare(k, kk) == 0 {
+				found = types.Equal(v, r.vals[i])
+				break
+			}
+		}
+		if !found {
+			bad = append(bad, fmt.Sprintf("Range yields (%s,%v)", keyStr(k), v.Interface()))
+		}
+	}
+	if seen != len(r.keys) {
+		bad = append(bad, fmt.Sprintf("Range yields %d pairs want %d", seen, len(r.keys)))
+	}
+	if len(bad) == 0 {
+		return ""
+	}
+	if len(bad) > 4 {
+		bad = append(bad[:4], "…")
+	}
+	return strings.Join(bad, "; ")
+}
+
+func newCollideRound(r *lib.RNG) *collideRound {
+	fam := collidingKeys(uint64(r.Range(1, 250)))
+	// random order: where a later key lands inside the bucket (the bucket is sorted by kind) varies
+	for i := len(fam) - 1; i > 0; i-- {
+		j := r.Intn(i + 1)
+		fam[i], fam[j] = fam[j], fam[i]
+	}
+	n := []int{3, 5, 6, 3}[r.Intn(4)]
+	cr := &collideRound{spare: fam[n:]}
+	build := func() types.Map {
+		m := types.NewMap()
+		for i := 0; i < n; i++ { // successive Sets on immutable maps: the bucket grows pair by pair
+			m = m.Set(fam[i], types.NewInt(i))
+		}
+		for i := 0; i < 3; i++ {
+			m = m.Set(types.NewString(fmt.Sprintf("plain%d", i)), types.NewString("p"))
+		}
+		return m
+	}
+	cr.shared, cr.twin = build(), build()
+	for i := 0; i < n; i++ {
+		cr.keys = append(cr.keys, fam[i])
+		cr.vals = append(cr.vals, types.NewInt(i))
+	}
+	for i := 0; i < 3; i++ {
+		cr.keys = append(cr.keys, types.NewString(fmt.Sprintf("plain%d", i)))
+		cr.vals = append(cr.vals, types.NewString("p"))
+	}
+	return cr
+}
+
+// collideWorkload: readers of a shared immutable map race writers that derive maps from it by
+// adding, deleting and overwriting keys of the SAME bucket; after every round the shared map is
+// checked, sequentially, to hold exactly its pairs.
+func collideWorkload(e *env) {
+	var cur atomic.Pointer[collideRound]
+	cur.Store(newCollideRound(e.rng.Fork()))
+	enter := func() *collideRound {
+		r := cur.Load()
+		r.active.Add(1)
+		if r.closed.Load() {
+			r.active.Add(-1)
+			return nil
+		}
+		return r
+	}
+	var changed atomic.Int64
+	e.spawn(1, "rounds", func(w *worker) {
+		for e.running() {
+			time.Sleep(time.Duration(w.rng.Range(300, 1500)) * time.Microsecond)
+			r := cur.Load()
+			r.closed.Store(true)
+			for r.active.Load() != 0 {
+				goruntime.Gosched()
+			}
+			w.do("post-check(shared map unchanged)", func() {
+				if bad := r.checkShared(); bad != "" && changed.Add(1) <= 3 { // the first few in full; every round would repeat it
+					e.finding("snapshot-changed", fmt.Sprintf("a shared immutable map changed while maps were derived from it: %s | shared keys: %s | keys set on derived maps only: %s",
+						bad, describeKeys(r.keys), describeKeys(r.spare)))
+				}
+			})
+			cur.Store(newCollideRound(w.rng))
+		}
+	})
+	e.spawn(4, "reader", func(w *worker) {
+		for e.running() {
+			r := enter()
+			if r == nil {
+				goruntime.Gosched()
+				continue
+			}
+			k := r.keys[w.rng.Intn(len(r.keys))]
+			switch w.rng.Intn(8) {
+			case 0:
+				w.do("Map.Get", func() { _ = r.shared.Get(k) })
+			case 1:
+				w.do("Map.Has", func() { _ = r.shared.Has(k); _ = r.shared.Has(r.spare[0]) })
+			case 2:
+				w.do("Map.Len", func() { _ = r.shared.Len() })
+			case 3:
+				w.do("Map.Keys/Values/Pairs", func() {
+					for _, xs := range [][]types.Value{r.shared.Keys(), r.shared.Values(), r.shared.Pairs()} {
+						for _, x := range xs {
+							_ = types.HashOf(x)
+						}
+					}
+				})
+			case 4:
+				w.do("Map.Range", func() {
+					for kk, v := range r.shared.Range() {
+						_, _ = kk, v
+					}
+				})
+			case 5:
+				w.do("Map.Hash", func() { _ = r.shared.Hash() })
+			case 6:
+				w.do("Map.Equal/Compare", func() { _ = r.shared.Equal(r.twin); _ = r.twin.Compare(r.shared) })
+			case 7:
+				// (not Map(): a Binary key makes the native map panic even from one goroutine – not a matter of concurrent use)
+				w.do("Map.Interface", func() { _ = r.shared.Interface() })
+			}
+			r.active.Add(-1)
+		}
+	})
+	e.spawn(3, "writer", func(w *worker) {
+		for e.running() {
+			r := enter()
+			if r == nil {
+				goruntime.Gosched()
+				continue
+			}
+			fresh := r.spare[w.rng.Intn(len(r.spare))]
+			old := r.keys[w.rng.Intn(len(r.keys))]
+			switch w.rng.Intn(5) {
+			case 0:
+				w.do("Map.Set(new colliding key)", func() {
+					d := r.shared.Set(fresh, types.NewInt(100+w.rng.Intn(9)))
+					_ = d.Get(fresh)
+					if len(r.spare) > 1 {
+						d = d.Set(r.spare[(w.rng.Intn(len(r.spare)))], types.NewInt(7))
+					}
+					_ = d.Len()
+				})
+			case 1:
+				w.do("Map.Delete", func() { d := r.shared.Delete(old); _ = d.Has(old); _ = d.Len() })
+			case 2:
+				w.do("Map.Mutable().Set", func() {
+					d := r.shared.Mutable()
+					d.Set(fresh, types.NewString("m"))
+					d.Delete(old)
+					_ = d.Immutable().Hash()
+				})
+			case 3:
+				w.do("Map.Set(overwrite)", func() { d := r.shared.Set(old, types.NewString("o")); _ = d.Get(old) })
+			case 4:
+				w.do("Map.Set(new plain key)", func() { d := r.shared.Set(types.NewString("fresh"), types.NewInt(1)); _ = d.Len() })
+			}
+			r.active.Add(-1)
 		}
 	})
 	e.waitActive()
